@@ -104,6 +104,7 @@ struct Bfs {
 	Sys& sys;
 	int c_trans, c_traces, c_pruned, c_leakchk;
 	std::string label;
+	std::map<std::string, Hist> known_example;
 	Bfs(Sys& s, const std::string& lbl) : sys(s), label(lbl) {
 		c_trans = counter((lbl + ".transitions").c_str());
 		c_traces = counter((lbl + ".traces").c_str());
@@ -121,12 +122,13 @@ struct Bfs {
 		return s;
 	}
 	// Runs history h then op (op<0: none). Returns false if a violation was recorded. key = hash of canon after.
-	bool run_one(const Hist& h, int op, H128* key, bool report = true) {
+	bool run_one(const Hist& h, int op, H128* key, bool report = true, const char* predicted = 0) {
 		Hist full = h;
 		if (op >= 0) full.push_back((uint16_t)op);
 		std::string kase = label + ":" + hist_str(full);
 		std::string sig, desc; sig.reserve(64); desc.reserve(1024);
 		cur(kase);
+		if (predicted) cur_sig(predicted);
 		asan_clear();
 		sys.reset();
 		uint64_t base = heap_bytes(); // lazily built statics were warmed by the first (unmeasured) run
@@ -149,6 +151,7 @@ struct Bfs {
 			if (after != base) { ok = false; sig = "leak"; desc = fmt("allocated bytes %+lld after dropping everything", (long long)(after - base)); }
 		}
 		add(c_traces);
+		if (!ok && predicted && sig != "harness_disabled_op") { desc = "[" + sig + "] " + desc; sig = predicted; } // failure of an op predicted to hit a classified defect
 		if (!ok && report) violation(sig, desc + "  history: " + describe(full), kase);
 		asan_clear();
 		return ok;
@@ -183,10 +186,15 @@ struct Bfs {
 				asan_clear();
 				for (size_t e = 0; e < en.size(); e++) {
 					int op = en[e];
-					if (pred[e] && known(pred[e])) { add(c_pruned); Hist f = h; f.push_back(op); known_hit(pred[e], describe(f)); continue; }
+					if (pred[e] && known(pred[e])) {
+						add(c_pruned); Hist f = h; f.push_back(op); known_hit(pred[e], describe(f));
+						static std::set<std::string> wrote;
+						if (wrote.insert(pred[e]).second) { FILE* kf = fopen((dir + fmt("/bfsk.%d.%d", d, worker_id())).c_str(), "a"); if (kf) { fprintf(kf, "%s %s\n", pred[e], hist_str(f).c_str()); fclose(kf); } }
+						continue;
+					}
 					H128 k;
 					add(c_trans);
-					if (!run_one(h, op, &k)) continue; // violation recorded; do not expand a broken state
+					if (!run_one(h, op, &k, true, pred[e])) continue; // violation recorded; do not expand a broken state
 					uint32_t idx = (uint32_t)i; uint16_t o = (uint16_t)op;
 					fwrite(&k, sizeof k, 1, out); fwrite(&idx, 4, 1, out); fwrite(&o, 2, 1, out);
 				}
@@ -204,6 +212,14 @@ struct Bfs {
 				while (fread(&rc.k, sizeof rc.k, 1, f) == 1 && fread(&rc.i, 4, 1, f) == 1 && fread(&rc.op, 2, 1, f) == 1) recs.push_back(rc);
 				fclose(f); remove(fn.c_str());
 			}
+			std::vector<std::string> kfiles = list_scratch(fmt("bfsk.%d.", d));
+			for (size_t w = 0; w < kfiles.size(); w++) {
+				FILE* f = fopen(kfiles[w].c_str(), "r");
+				char sg[200], hs[2000];
+				while (f && fscanf(f, "%199s %1999s", sg, hs) == 2) if (!known_example.count(sg)) known_example[sg] = hist_parse(hs);
+				if (f) fclose(f);
+				remove(kfiles[w].c_str());
+			}
 			std::sort(recs.begin(), recs.end(), [](const Rec& a, const Rec& b) { return a.i < b.i || (a.i == b.i && a.op < b.op); });
 			std::vector<Hist> next;
 			for (size_t j = 0; j < recs.size(); j++) {
@@ -216,6 +232,13 @@ struct Bfs {
 			if (maxStates && r.states > maxStates) { cap_hit(label + fmt(": state cap %llu reached at depth %d", (unsigned long long)maxStates, d + 1)); break; }
 		}
 		if (frontier.empty()) r.fixed_point = true;
+		// one confirming run per pruned known finding, in a sacrificial child: does the listed defect still fail?
+		for (std::map<std::string, Hist>::iterator it = known_example.begin(); it != known_example.end(); ++it) {
+			int c_still = counter((label + ".known_no_longer_fails:" + it->first).c_str());
+			Hist kh = it->second; std::string ksig = it->first;
+			parallel(1, [&](uint64_t) { cur(label + ":" + hist_str(kh)); cur_sig(ksig.c_str()); if (run_one(kh, -1, 0, false, ksig.c_str())) add(c_still); });
+			note(get(c_still) ? "known_not_reproduced:" + ksig : "known_confirmed_still_failing:" + ksig);
+		}
 		r.transitions = get(c_trans);
 		r.traces = get(c_traces);
 		// a few written-out samples of deepest histories
